@@ -67,13 +67,13 @@ def compare(vec, line, v, what):
         ok = rep("canary", "%s: memory outside the message arena was modified" % what)
     return ok
 
-def replay(v, ex, vectors, rnd):
+def replay(v, ex, vectors, rnd, places=None, tag=""):
     cmds, meta = [], []
     for vec in vectors:
         reads = vec["op"] in ("calcpath", "getpath", "getdata")
-        pls = [("E", 0), ("S", rnd.randrange(16))] + ([("R", 0)] if reads else [])
+        pls = places if places is not None else [("E", 0), ("S", rnd.randrange(16))] + ([("R", 0)] if reads else [])
         for place, off in pls:
-            cmds.append(cmd(vec, place, off)); meta.append((vec, "placement %s+%d" % (place, off)))
+            cmds.append(cmd(vec, place, off)); meta.append((vec, "%splacement %s+%d" % (tag, place, off)))
     outs = ex.run_robust(cmds, timeout=1800)
     if len(outs) != len(cmds): raise Infra("executor died in VSS replay (exit %s): %s" % (ex.returncode, ex.stderr[-400:]))
     bad = sum(0 if compare(vec, line, v, what) else 1 for (vec, what), line in zip(meta, outs))
@@ -195,7 +195,7 @@ def sa_compare(vec, line, v):
         if vec["withdest"] == 1 and i < 8 and gb != hexs(r["bytes"]): ok = rep("bytes", "unpack: string %d bytes %s, specification %s" % (i, gb[:60], hexs(r["bytes"])[:60]))
     return ok
 
-def sa_replay(v, ex, vectors):
+def sa_replay(v, ex, vectors, tag=""):
     cmds, meta = [], []
     for vec in vectors:
         for c, _ in sa_cmds(vec):
